@@ -353,6 +353,24 @@ SHAPES = [
      r"ev.events = events_to_epoll\(events\);" + WS + r"ev.data.ptr = context;[^\n]*" + WS + r"return epoll_ctl\(runtime->epoll_fd, EPOLL_CTL_MOD, fd, &ev\);", 1),
     ("epoll.add", "lib/async/async_runtime_epoll.c", None,
      r"ev.events = events_to_epoll\(events\);" + WS + r"ev.data.ptr = context;" + WS + r"return epoll_ctl\(runtime->epoll_fd, EPOLL_CTL_ADD, fd, &ev\);", 1),
+    # snoop relation, re-entrancy (Multi.lean: dropSnooper, MOp.snoop, reactStep / writeW)
+    ("receive_snoop.body", "src/comm.c", None,
+     r"static void receive_snoop \(char \*buf, object_t \* snooper\) \{(?:\s|/\*[^*]*\*/)*copy_and_push_string \(buf\);" + WS
+     + r"apply \(APPLY_RECEIVE_SNOOP, snooper, 1, ORIGIN_DRIVER\);" + WS + r"\}", 1),
+    ("remove_interactive.snoop-links", "src/comm.c", None,
+     r"if \(ip->snoop_by\)" + WS + r"\{" + WS + r"ip->snoop_by->snoop_on = 0;" + WS + r"ip->snoop_by = 0;" + WS + r"\}" + WS
+     + r"if \(ip->snoop_on\)" + WS + r"\{" + WS + r"ip->snoop_on->snoop_by = 0;" + WS + r"ip->snoop_on = 0;" + WS + r"\}", 1),
+    ("remove_interactive.close-fd", "src/comm.c", None, r"if \(SOCKET_CLOSE \(ip->fd\) == SOCKET_ERROR\)", 1),
+    ("new_set_snoop.loop-guard", "src/comm.c", None,
+     r"for \(tmp = on; tmp; tmp = tmp->snoop_on\)" + WS + r"\{" + WS + r"if \(tmp == by\)" + WS + r"return \(0\);" + WS + r"\}", 1),
+    ("new_set_snoop.relink", "src/comm.c", None,
+     r"if \(by->snoop_on\)" + WS + r"\{" + WS + r"by->snoop_on->snoop_by = 0;" + WS + r"by->snoop_on = 0;" + WS + r"\}" + WS
+     + r"if \(on->snoop_by\)" + WS + r"\{" + WS + r"on->snoop_by->snoop_on = 0;" + WS + r"on->snoop_by = 0;" + WS + r"\}" + WS
+     + r"on->snoop_by = by;" + WS + r"by->snoop_on = on;", 1),
+    ("f_receive", "lib/efuns/interactive.c", None,
+     r"if \(current_object->interactive\)" + WS + r"\{" + WS + r"check_legal_string \(sp->u.string\);" + WS
+     + r"add_message \(current_object, sp->u.string\);", 1),
+    ("tell_object.interactive", "lib/lpc/object.c", None, r"if \(ob->interactive\)" + WS + r"add_message \(ob, str\);", 1),
     ("socket_comm.send-macro", "lib/port/socket_comm.h", None, r"#define SOCKET_SEND\(s, b, l, f\)\s+send\(s, b, l, f\)", 1),
     ("socket_comm.errno-macro", "lib/port/socket_comm.h", None, r"#define SOCKET_ERRNO\s+errno", 1),
 ]
